@@ -63,8 +63,7 @@ def parseOp : List String → Option POp
   | ["dpopd", k, d] => do some (.dpopd (← parseVal k) (← parseVal d))
   | ["dgetd", k, d] => do some (.dgetd (← parseVal k) (← parseVal d))
   | ["dcontains", k] => do some (.dcontains (← parseVal k))
-  | ["dkeys"] => some .dkeys
-  | ["dvalues"] => some .dvalues
+  | ["dcopy"] => some .dcopy
   | ["dclear"] => some .dclear
   | ["dsetdefault", k, v] => do some (.dsetdefault (← parseVal k) (← parseVal v))
   | ["dpopitem"] => some .dpopitem
